@@ -171,6 +171,27 @@ def search(chk, broken):
                                          'python': 'from py_ballisticcalc import *; c=Calculator(); s=Shot(Weapon(2), Ammo(DragModel(0.3, TableG7), Unit.FPS(2700)), look_angle=Unit.Degree(20)); '
                                                    'c.set_weapon_zero(s, Unit.Yard(300)); import math; '
                                                    'c.fire(s, Unit.Foot(900*math.cos(math.radians(20))), Unit.Foot(900*math.cos(math.radians(20)))).trajectory[1].target_drop >> Unit.Foot'}))
+        # ... and with a dense table (recording steps below the integration step are legitimate requests): the zeroed shot must pass
+        # through its point of aim whatever table the user asks for
+        if X <= 700 and rng.random() < 0.5:
+            st = rng.choice([0.05, 0.1, 0.2])
+            try:
+                rows = calc.fire(fb, U.Foot(X), U.Foot(st)).trajectory
+            except Exception as e:  # noqa
+                continue
+            below = [r for r in rows if (r.distance >> U.Foot) <= X]
+            above = [r for r in rows if (r.distance >> U.Foot) >= X]
+            if below and above:
+                chk.stats['dense_table_fire_backs'] = chk.stats.get('dense_table_fire_backs', 0) + 1
+                r0, r1 = below[-1], above[0]
+                x0, x1 = r0.distance >> U.Foot, r1.distance >> U.Foot
+                w1 = 0.0 if x1 == x0 else (X - x0) / (x1 - x0)
+                miss2 = abs((r0.target_drop >> U.Foot) * (1 - w1) + (r1.target_drop >> U.Foot) * w1)
+                if miss2 > allowed * 1.05 + 2e-6:
+                    chk.failures.append(Failure('misses-sight-line:dense-table',
+                                                f'zeroed at {D:.0f} ft, look {math.degrees(look):.1f} deg: fired with the returned zero and a table every {st} ft the trajectory is '
+                                                f'{miss2:.6f} ft from the sight line at the aim point (with one row at the aim point: {miss:.6f} ft); allowed {allowed:.6f} ft',
+                                                {**desc, 'record_step_ft': st, 'observed': miss2, 'allowed': allowed}))
     # out of reach means an ERROR, never an angle: aim points at the edge of what the limits allow.  Whatever zeroing returns must
     # survive the fire-back (the trajectory fired with it gets to the aim point, within the accuracy); a raise must leave the weapon alone
     for it in range(8 if (chk.tier == 'quick' and not broken) else 300):
